@@ -46,6 +46,7 @@ def main(argv):
     if names:
         paths = [p for p in paths if any(n in p for n in names)]
     missed = 0
+    known_missed = []
     rows = []
     for p in paths:
         m = meta(p)
@@ -57,6 +58,7 @@ def main(argv):
                 m['property'] = j['property']
                 m['checks'] = j.get('checks') or [j['property']]
                 m['counted'] = j.get('counted', True)
+                m['known_miss'] = bool(j.get('known_miss'))
         name = os.path.relpath(p, HERE)
         d = scratch_copy()
         try:
@@ -86,13 +88,16 @@ def main(argv):
                 caught.append((prop, hit, tag.group(1) if tag else ('exit %d' % c.returncode), time.time() - t0))
             ok = any(h for _p, h, _t, _s in caught)
             counted = m.get('counted', True)
-            if not ok and counted:
+            if not ok and counted and not m.get('known_miss'):
                 missed += 1
+            if not ok and m.get('known_miss'):
+                known_missed.append(name)
             rows.append((name, ok))
-            print('%-46s %s  %s%s' % (name, 'CAUGHT' if ok else ('MISSED' if counted else 'NOT-COUNTED (see meta.json)'),
+            print('%-46s %s  %s%s' % (name, 'CAUGHT' if ok else (('KNOWN-MISS (a weakness left open, see meta.json and DESIGN 13.6)' if m.get('known_miss') else 'MISSED') if counted else 'NOT-COUNTED (see meta.json)'),
                                       ' '.join('%s:%s(%s,%.0fs)' % (p_, 'y' if h else 'n', t, s) for p_, h, t, s in caught),
                                       '' if suite_ok is None else ('  suite:%s' % ('pass' if suite_ok else 'FAIL'))))
         finally:
             shutil.rmtree(d, ignore_errors=True)
-    print('%d mutants, %d missed' % (len(paths), missed))
+    print('%d mutants, %d missed%s' % (len(paths), missed, (', %d known miss(es) left open: %s' % (
+        len(known_missed), ' '.join(known_missed))) if known_missed else ''))
     return 1 if missed else 0
